@@ -103,6 +103,19 @@ register('C03',
          'Coq proof (table-level chain lemma + inductive machine invariant) + vm_compute replay of recorded traces against the real tables',
          'DESIGN.md §7 C03')
 
+register('C11',
+         'Coq theorems: in every reachable state of the Layer-B machine the version-table primary key (entity, transaction) holds '
+         '- so a transaction leaves at most one row per entity however often it flushes - and the package never raises on a row it '
+         'wrote in an earlier flush; the operation type left in the operations map for an entity by ANY sequence of insert/update/'
+         'delete events spread over any number of flushes is the coalesced one (last tracked kind, insert-after-anything = UPDATE), '
+         'unaffected by events of other entities; the predecessor is closed by C03. All sequences over insert/update/delete/'
+         're-insert with all flush placements up to length 3 (quick) / 4 (thorough) are run on the real code as test inputs '
+         'and compared with the model and with the coalescing predicate after every flush.',
+         COMMON_NOTE + 'The clause "the row holds the state of the last flushed change" is decided by the C01 check (same model, same '
+         'runs); savepoint-commit points are not generated (savepoints are C06).',
+         'Coq proof (automaton lemma by induction over the event list + inductive machine invariant) + enumerated and random histories replayed against the real tables',
+         'DESIGN.md §7 C11')
+
 ALL = ['C%02d' % i for i in range(1, 21)]
 
 
